@@ -212,17 +212,19 @@ example (σ : List Nat) (hσ : σ.Perm (List.range 3)) :
     `c` = the peer's chain from genesis: linear (`Linked`), ids 1,2,…, distinct non-zero hashes, every block valid,
     ticket-carrying and value-free (`Lin`); the requester holds its first `m0 ≥ 1` blocks (its state is the closed
     form `linSt`, which is what the model's own in-order delivery produces — example below). With the retry rule
-    on and the pinned flags, for EVERY permutation `σ` of the deliveries of the remaining blocks the node ends with
+    on, for the pinned flags AND for every repair combination that leaves the wind/unwind loop and the ticket rule as
+    they are (in particular the tree carrying the fixes F1 = `txVerdict`, F3 = `ringDeleteKeepsNone`), for EVERY permutation `σ` of the deliveries of the remaining blocks the node ends with
     exactly the peer's chain adopted, nothing queued, and the peer's tip. No hypothesis on `addBlock` is left:
     adoption of each next block (`addBlock_lin`: ring, fork choice, ticket window, wind, supply check — all
     evaluated symbolically) and the retry answers are proved in Lemmas/LinearChain.lean. -/
-theorem delivery_order_free_linear (gp : Nat) (c : List ABlock) (m0 : Nat) (d : ABlock) (L : Lin gp c) (hl : Linked c)
+theorem delivery_order_free_linear (fl : Flags) (hw : fl.windFailureRestores = false) (hg : fl.gtEveryBlock = false)
+    (gp : Nat) (c : List ABlock) (m0 : Nat) (d : ABlock) (L : Lin gp c) (hl : Linked c)
     (hm1 : 1 ≤ m0) (hm : m0 ≤ c.length) (σ : List Nat) (hσ : σ.Perm (List.range (c.length - m0))) :
-    deliverAll {} { st := linSt gp true (c.take m0) } (σ.map (linBlk c m0 d)) =
+    deliverAll fl { st := linSt gp true (c.take m0) } (σ.map (linBlk c m0 d)) =
       { st := linSt gp true c, queue := [], dead := false } ∧
-    tipOf (deliverAll {} { st := linSt gp true (c.take m0) } (σ.map (linBlk c m0 d))) =
+    tipOf (deliverAll fl { st := linSt gp true (c.take m0) } (σ.map (linBlk c m0 d))) =
       c.getLast?.map (fun b => (b.id, b.hash)) := by
-  have h := deliverAll_perm (ladder_lin gp c m0 d L hl hm1 hm) σ hσ
+  have h := deliverAll_perm (ladder_lin fl hw hg gp c m0 d L hl hm1 hm) σ hσ
   have e0 : linSts gp c m0 0 = linSt gp true (c.take m0) := rfl
   have en : linSts gp c m0 (c.length - m0) = linSt gp true c := by
     unfold linSts
@@ -233,6 +235,16 @@ theorem delivery_order_free_linear (gp : Nat) (c : List ABlock) (m0 : Nat) (d : 
   have hne : c ≠ [] := by intro he; subst he; simp at hm; omega
   obtain ⟨bs, last, rfl⟩ : ∃ bs last, c = bs ++ [last] := ⟨c.dropLast, c.getLast hne, (List.dropLast_concat_getLast hne).symm⟩
   simp only [tipOf, latest_lin, List.getLast?_append, List.getLast?_singleton, Option.map_some, Option.some_or]
+
+/-- the flag sets of the two trees the suite is run on meet the flag hypotheses: pinned (all false) and the tree with
+    the transaction verdict propagated and `RingItem::delete_block` repaired -/
+example (gp : Nat) (c : List ABlock) (m0 : Nat) (d : ABlock) (L : Lin gp c) (hl : Linked c) (hm1 : 1 ≤ m0)
+    (hm : m0 ≤ c.length) (σ : List Nat) (hσ : σ.Perm (List.range (c.length - m0))) :
+    tipOf (deliverAll {} { st := linSt gp true (c.take m0) } (σ.map (linBlk c m0 d))) = c.getLast?.map (fun b => (b.id, b.hash)) ∧
+    tipOf (deliverAll { ringDeleteKeepsNone := true, txVerdict := true } { st := linSt gp true (c.take m0) } (σ.map (linBlk c m0 d))) =
+      c.getLast?.map (fun b => (b.id, b.hash)) :=
+  ⟨(delivery_order_free_linear {} rfl rfl gp c m0 d L hl hm1 hm σ hσ).2,
+   (delivery_order_free_linear { ringDeleteKeepsNone := true, txVerdict := true } rfl rfl gp c m0 d L hl hm1 hm σ hσ).2⟩
 
 /-- non-vacuity: a six-block chain meets `Lin`/`Linked`, and the closed form IS the state the model's own
     `addBlock` reaches by in-order delivery from the empty node -/
